@@ -1,4 +1,12 @@
-/- gate encoding `tag nparams p1 … pn` (shared with harness/src/dump.rs::dump_gate) -/
+/- gate descriptors in flat numeric dumps: `tag nparams p1 … pn`, mirrored by `dump_gate` in
+harness/src/dump.rs.  Tags follow the order of the `GateKind` constructors:
+ 0 arithmetic(numOps)            1 arithmeticExt(numOps)        2 mulExt(numOps)
+ 3 baseSum(base, numLimbs)       4 constant(numConsts)
+ 5 cosetInterpolation(subgroupBits, degree, w_0 … w_{k-1})   (nparams = 2 + k weights)
+ 6 exponentiation(numPowerBits)  7 lookup(numSlots)             8 lookupTable(numSlots)
+ 9 noop   10 poseidon   11 poseidonMds   12 publicInput
+13 randomAccess(bits, numCopies, numExtraConstants)
+14 reducing(numCoeffs)          15 reducingExt(numCoeffs) -/
 import P2.Drv.Parse
 import P2.Model.Gates
 namespace P2.Drv
@@ -11,9 +19,9 @@ def pGate : Parser GateKind := do
   | 0, [n] => pure (.arithmetic n)
   | 1, [n] => pure (.arithmeticExt n)
   | 2, [n] => pure (.mulExt n)
-  | 3, [b, l] => pure (.baseSum b l)
+  | 3, [b, n] => pure (.baseSum b n)
   | 4, [n] => pure (.constant n)
-  | 5, sb :: d :: ws => pure (.cosetInterpolation sb d ws)
+  | 5, bits :: d :: ws => pure (.cosetInterpolation bits d ws)
   | 6, [n] => pure (.exponentiation n)
   | 7, [n] => pure (.lookup n)
   | 8, [n] => pure (.lookupTable n)
@@ -21,9 +29,31 @@ def pGate : Parser GateKind := do
   | 10, [] => pure .poseidon
   | 11, [] => pure .poseidonMds
   | 12, [] => pure .publicInput
-  | 13, [b, c, e] => pure (.randomAccess b c e)
+  | 13, [bits, copies, extra] => pure (.randomAccess bits copies extra)
   | 14, [n] => pure (.reducing n)
   | 15, [n] => pure (.reducingExt n)
   | _, _ => failure
+
+/-- the task's name for the same parser -/
+def parseGate : Parser GateKind := pGate
+
+/-- the encoding itself (inverse of `pGate`) -/
+def dumpGate : GateKind → List Nat
+  | .arithmetic n => [0, 1, n]
+  | .arithmeticExt n => [1, 1, n]
+  | .mulExt n => [2, 1, n]
+  | .baseSum b n => [3, 2, b, n]
+  | .constant n => [4, 1, n]
+  | .cosetInterpolation bits d ws => [5, 2 + ws.length, bits, d] ++ ws
+  | .exponentiation n => [6, 1, n]
+  | .lookup n => [7, 1, n]
+  | .lookupTable n => [8, 1, n]
+  | .noop => [9, 0]
+  | .poseidon => [10, 0]
+  | .poseidonMds => [11, 0]
+  | .publicInput => [12, 0]
+  | .randomAccess bits copies extra => [13, 3, bits, copies, extra]
+  | .reducing n => [14, 1, n]
+  | .reducingExt n => [15, 1, n]
 
 end P2.Drv
